@@ -340,7 +340,69 @@ func implDecin(p *vproto.Parser) string {
 	if r1 != r2 {
 		state = "second-decode-differs"
 	}
+	// nil vs empty: every slice of a decoded value is non-nil (readPoints: make([]geom.Point, 0, …); the Multi*/
+	// polygon/collection readers: []T{}), also for a count of 0 — reported apart (the property does not
+	// distinguish nil from empty, so this is a correspondence observation, not a violation)
+	if state == "intact" && err1 == nil {
+		if at := nilAt(g1, "top"); at != "" {
+			state = "intact-nil:" + at
+		}
+	}
 	return state + " " + r1
+}
+
+// nilAt returns the path of the first nil slice inside a decoded value ("" if there is none).
+func nilAt(g geom.Geom, path string) string {
+	switch v := g.(type) {
+	case geom.LineString:
+		if v == nil {
+			return path
+		}
+	case geom.MultiPoint:
+		if v == nil {
+			return path
+		}
+	case geom.Polygon:
+		if v == nil {
+			return path
+		}
+		for i, ring := range v {
+			if ring == nil {
+				return fmt.Sprintf("%s/ring%d", path, i)
+			}
+		}
+	case geom.MultiLineString:
+		if v == nil {
+			return path
+		}
+		for i, l := range v {
+			if l == nil {
+				return fmt.Sprintf("%s/line%d", path, i)
+			}
+		}
+	case geom.MultiPolygon:
+		if v == nil {
+			return path
+		}
+		for i, pg := range v {
+			if at := nilAt(pg, fmt.Sprintf("%s/polygon%d", path, i)); at != "" {
+				return at
+			}
+		}
+	case geom.GeometryCollection:
+		if v == nil {
+			return path
+		}
+		for i, m := range v {
+			if m == nil {
+				return fmt.Sprintf("%s/member%d", path, i)
+			}
+			if at := nilAt(m, fmt.Sprintf("%s/member%d", path, i)); at != "" {
+				return at
+			}
+		}
+	}
+	return ""
 }
 
 // bin <bo> <32 hex digits>: the encoding/binary primitives themselves (the tie of lean/GeomV/C05/BinStd.lean):
@@ -381,6 +443,16 @@ func genStream(out *bufio.Writer, r *vproto.Rng, n int) {
 		fmt.Fprintf(out, "bin %s %x\n", []string{"X", "N"}[i%2], b[:])
 	}
 	small := func() geom.Geom { return genGeom(r, 2) }
+	// nil vs empty: values whose every member list is empty (count fields 0 at every level), both byte orders
+	for _, g := range []geom.Geom{geom.LineString{}, geom.Polygon{}, geom.Polygon{{}}, geom.Polygon{{}, {}}, geom.MultiPoint{},
+		geom.MultiLineString{}, geom.MultiLineString{{}}, geom.MultiPolygon{}, geom.MultiPolygon{{}}, geom.MultiPolygon{{{}}},
+		geom.GeometryCollection{}, geom.GeometryCollection{geom.LineString{}, geom.GeometryCollection{}, geom.MultiPolygon{{{}}, {}}}} {
+		for _, o := range []string{"X", "N"} {
+			if buf, err := wkb.Encode(g, bo(o)); err == nil {
+				fmt.Fprintf(out, "decin x%s\n", hex.EncodeToString(buf))
+			}
+		}
+	}
 	// several values on one stream behind scripted readers (cut and failed by the Lean prep stage from the
 	// independent serializer's bytes)
 	for i := 0; i < n/6; i++ {
@@ -443,6 +515,28 @@ func genStream(out *bufio.Writer, r *vproto.Rng, n int) {
 			lim = len(buf)
 		case 1:
 			lim = len(buf) - 1
+		}
+		fmt.Fprintf(out, "wrfail %d %s %s\n", lim, []string{"X", "N"}[r.Intn(2)], vproto.GeomToks(g))
+	}
+	// an unsupported value (top level; after supported members of a collection; nested): the bytes handed to the
+	// writer before wkb.Write gives up — never failing writer (limit 100000) and writers failing before, at and after
+	// the position of the unsupported member
+	ub := &geom.Bounds{Min: geom.Point{X: 0, Y: 0}, Max: geom.Point{X: 1, Y: 1}}
+	for i := 0; i < 24; i++ {
+		var g geom.Geom
+		switch i % 4 {
+		case 0:
+			g = ub
+		case 1:
+			g = geom.GeometryCollection{small(), ub, small()}
+		case 2:
+			g = geom.GeometryCollection{small(), geom.GeometryCollection{small(), ub}, small()}
+		default:
+			g = geom.GeometryCollection{nil, small()}
+		}
+		lim := 100000
+		if i >= 8 {
+			lim = r.Intn(80)
 		}
 		fmt.Fprintf(out, "wrfail %d %s %s\n", lim, []string{"X", "N"}[r.Intn(2)], vproto.GeomToks(g))
 	}
